@@ -143,9 +143,6 @@ Proof.
 Qed.
 
 (* ---- the moves of a drain ----------------------------------------------------------------------- *)
-Definition rank_for (e : denv) (c : Z) : option (list (Z * Z)) :=
-  match aget None c (dn_rank e) with Some x => x | None => None end.
-
 Inductive hstep : denv * cst -> denv * cst -> Prop :=
 | HDeliver : forall e s c r, cget c s = Some r -> cr_phase r = PSending -> is_blocked e (cr_gen r) = false ->
     dn_park e = false ->
